@@ -318,7 +318,7 @@ def asm15Engine : List String → String
         | .failed _ _ => "failed"
       let td := match res with
         | .ok => let (e, fe) := teardown (fun i => fails.contains i) stack
-                 s!" td={",".intercalate (e.filterMap (fun (x : TdEv) => match x with | TdEv.attempt i => some s!"A{i}" | _ => none))} tderr={match fe with | some _ => "true" | none => "false"}"
+                 s!" td={",".intercalate (e.filterMap (fun (x : TdEv) => match x with | TdEv.attempt i => some s!"A{i}" | _ => none))} tderr={match fe with | some i => toString i | none => "false"}"
         | _ => ""
       s!"evs={",".intercalate (evs.filterMap obs)} res={r}{td}"
     | none => "bad-op"
